@@ -6,9 +6,11 @@ import (
 	"crypto/elliptic"
 	"crypto/rsa"
 	"crypto/x509"
+	"errors"
 	"fmt"
 	"math/big"
 	"math/rand/v2"
+	"sync"
 
 	ic "github.com/libp2p/go-libp2p/core/crypto"
 )
@@ -127,4 +129,47 @@ func ed25519KeyWithOffset(r *rand.Rand, wantMin int64) (ic.PrivKey, error) {
 		}
 	}
 	return nil, fmt.Errorf("no key with offset %d min found", wantMin)
+}
+
+// flakyKey: the host key whose Raw() fails ONCE, at the n-th call after it was armed (the cert manager
+// derives every certificate from Raw(): a rollover whose derivation fails has to be made up for).
+type flakyKey struct {
+	ic.PrivKey
+	mu    sync.Mutex
+	armed bool
+	left  int
+	fired int
+}
+
+func (k *flakyKey) arm(n int) {
+	k.mu.Lock()
+	k.armed, k.left = true, n
+	k.mu.Unlock()
+}
+
+func (k *flakyKey) disarm() {
+	k.mu.Lock()
+	k.armed = false
+	k.mu.Unlock()
+}
+
+func (k *flakyKey) firedCount() int {
+	k.mu.Lock()
+	defer k.mu.Unlock()
+	return k.fired
+}
+
+func (k *flakyKey) Raw() ([]byte, error) {
+	k.mu.Lock()
+	if k.armed {
+		k.left--
+		if k.left == 0 {
+			k.armed = false
+			k.fired++
+			k.mu.Unlock()
+			return nil, errors.New("verif: host key temporarily unavailable")
+		}
+	}
+	k.mu.Unlock()
+	return k.PrivKey.Raw()
 }
